@@ -13,7 +13,7 @@ VERIF = os.path.dirname(os.path.abspath(__file__))
 REPO = os.environ.get("VERIF_REPO", "/repo")
 # assertions about state that only the engine can observe: held locks and blocked goroutines (natively verifapi.HeldLocks()
 # is 0 and verifapi.Blocked() is true, so a native replay of such a violation passes by construction)
-ENGINE_ONLY_ASSERTIONS = {"no-lock-left-held", "lock-released", "all-background-activity-stopped"}
+ENGINE_ONLY_ASSERTIONS = {"no-lock-left-held", "lock-released", "all-background-activity-stopped", "no-goroutine-left-behind"}
 GOSYM = os.path.join(VERIF, "bin", "gosym")
 HARNESS = os.path.join(VERIF, "harness")
 KNOWN = os.path.join(VERIF, "known_findings.json")
